@@ -186,7 +186,7 @@ func TestC04Independence(t *testing.T) {
 		l, _ := newL1(w)
 		cfg := cfgC04
 		cfg.OmitUUID = false
-		g := kit.NewTxnGen(s, cfg)
+		g := kit.NewTxnGen(s, withBig(t, cfg))
 		n := rapid.IntRange(2, 14).Draw(t, "ntxn")
 		fork := rapid.IntRange(1, n-1).Draw(t, "fork")
 		var hist [][]kit.Op
